@@ -14,6 +14,9 @@ import (
 	"github.com/rs/zerolog"
 )
 
+// tiffHeaderLength is the length of the Tiff Header (byte order, magic number and first Ifd offset)
+const tiffHeaderLength = 8
+
 func Parse(r io.ReadSeeker) (Exif, error) {
 	h, err := tiff.ScanTiffHeader(r, imagetype.ImageUnknown)
 	if err != nil {
@@ -79,7 +82,14 @@ func (ir *ifdReader) DecodeIfd(r io.Reader, h meta.ExifHeader) (err error) {
 	ir.Exif.ImageType = h.ImageType
 	ir.exifLength = h.ExifLength
 	ir.firstIfdOffset = h.FirstIfdOffset
-	ir.po = h.FirstIfdOffset
+	// The caller has consumed the 8 byte Tiff Header: skip to the first Ifd
+	if h.FirstIfdOffset < tiffHeaderLength {
+		return meta.ErrInvalidHeader
+	}
+	ir.po = tiffHeaderLength
+	if err = ir.discard(int(h.FirstIfdOffset) - tiffHeaderLength); err != nil {
+		return err
+	}
 	err = ir.readIfd(ifds.NewIFD(h.ByteOrder, ifds.IfdType(h.FirstIfd), 0, ir.tiffHeaderOffset, 0))
 	return err
 }
